@@ -200,6 +200,71 @@ def c15_locality(which: int, pos: int, boost: int) -> bool:
     return ok
 
 
+UNRELATED_BASE = ("namespace robot { namespace arm { class Kind { Kind(); }; class User { User(); void use(robot::arm::Kind k, double w = 1) const; "
+                  "robot::arm::Kind get() const; static robot::arm::Kind Make(); robot::arm::Kind held; }; double reach(robot::arm::Kind k); } }\n"
+                  "class Kind { Kind(); }; class GUser { GUser(Kind k); Kind again() const; };\n")
+UNRELATED_ADDITIONS = [
+    "namespace robotarm { enum Kind { A, B }; }",                       # a namespace whose name is the other path with the separator dropped
+    "namespace ro { namespace botarm { enum Kind { A, B }; } }",
+    "namespace tools { enum Kind { A, B }; }",
+    "namespace robot { namespace leg { enum Kind { A, B }; class Kind2 { Kind2(); }; } }",
+    "namespace robot { enum Kind { A, B }; }",                          # an enclosing namespace
+    "namespace arm { enum Kind { A, B }; class User { User(); }; }",     # the leaf name alone
+    "namespace robotarm { }",
+    "double Kind2(double x); void User2();",
+    "namespace other { class Kind { Kind(); void m() const; }; class User { User(); }; }",
+    "template<T = {double}> class Tm { Tm(T t); };",
+]
+
+
+def _strip_ids(text):
+    return re.sub(r"(_wrapper\(|_)(\d+)\b", lambda m: m.group(1) + "#", text)
+
+
+def check_unrelated(add, where, boost):
+    extra = UNRELATED_ADDITIONS[add]
+    base = UNRELATED_BASE
+    text = (extra + "\n" + base) if where == 0 else (base + extra + "\n")
+    problems = []
+    # pybind: every statement of the base module is still there, unchanged
+    b0 = [e["stmt"] for e in readers.parse_pybind(pipe.pybind_body(base, boost=bool(boost)))]
+    b1 = [e["stmt"] for e in readers.parse_pybind(pipe.pybind_body(text, boost=bool(boost)))]
+    lost = [s for s in b0 if s not in b1]
+    if lost:
+        problems.append("pybind: code of existing entities changed: %r" % lost[:2])
+    # MATLAB: the files of the existing entities are unchanged up to gateway ids, and so are their routines
+    f0, c0, _ = pipe.matlab(base, boost=bool(boost))
+    f1, c1, _ = pipe.matlab(text, boost=bool(boost))
+    for k, v in f0.items():
+        if k.endswith(".m") and _strip_ids(f1.get(k, "")) != _strip_ids(v):
+            problems.append("MATLAB: %s changed (beyond id renumbering)" % k)
+    # (numbered routines only: mexFunction, _deleteAllObjects and the RTTI registry list every class by construction)
+    r0 = {re.sub(r"_\d+$", "", n): _strip_ids(b) for n, b in readers.mex_routines(c0) if re.search(r"_\d+$", n)}
+    r1 = {re.sub(r"_\d+$", "", n): _strip_ids(b) for n, b in readers.mex_routines(c1) if re.search(r"_\d+$", n)}
+    for n, b in r0.items():
+        if r1.get(n) != b:
+            problems.append("MATLAB: routine %s of an existing entity changed: %r" % (n, [(x, y) for x, y in zip(b.split("\n"), (r1.get(n) or "").split("\n")) if x != y][:2]))
+    if problems:
+        return _fail(added=extra, where=("before", "after")[where], problems=problems[:4])
+    return True
+
+
+def c15_unrelated_additions(add: int, where: int, boost: int) -> bool:
+    """
+    Adding an UNRELATED declaration — an enum / class / function / empty namespace whose name or namespace path resembles
+    existing ones (`robotarm` next to `robot::arm`, the leaf name alone, an enclosing namespace, another namespace with
+    same-named classes) — before or after the existing text leaves every existing entity's pybind statements, MATLAB files
+    and MEX routines unchanged (up to the renumbering of gateway ids).
+    pre: 0 <= add < len(UNRELATED_ADDITIONS) and 0 <= where <= 1 and 0 <= boost <= 1
+    post: _
+    """
+    add, where, boost = pick(add, 0, len(UNRELATED_ADDITIONS)), pick(where, 0, 2), pick(boost, 0, 2)
+    with concrete():
+        ok = check_unrelated(add, where, boost)
+    reached({"added": UNRELATED_ADDITIONS[add][:50], "where": where, "boost": boost})
+    return ok
+
+
 def conds(tier):
     q = tier == "quick"
     t = (lambda x, y: x) if q else (lambda x, y: y)
@@ -208,6 +273,8 @@ def conds(tier):
         xh.Cond(M, "c15_entry_pybind", t(240, 1500), examples=["entry='G'", "entry='ns::A'", "entry='A'", "entry='ns::AB'", "entry=''"],
                 bounds="all ignore entries of length <= %d over {n,s,:,A,G,B}" % (6 if q else 7)),
         xh.Cond(M, "c15_entry_matlab", t(200, 900), kind="shape-bounded", examples=["e=1", "e=2", "e=3", "e=4"], bounds="%d ignore entries (exact, prefix, suffix, unqualified, ::-prefixed)" % len(ENTRIES)),
+        xh.Cond(M, "c15_unrelated_additions", t(300, 900), kind="shape-bounded", path_timeout=90, examples=["add=0, where=0, boost=0", "add=1, where=1, boost=1", "add=5, where=0, boost=0", "add=8, where=1, boost=0"],
+                bounds="%d unrelated additions with look-alike names / namespace paths x before | after x serialization" % len(UNRELATED_ADDITIONS)),
         xh.Cond(M, "c15_locality", t(300, 900), kind="shape-bounded", path_timeout=90, examples=["which=0, pos=0, boost=0", "which=1, pos=1, boost=1", "which=3, pos=0, boost=0", "which=2, pos=1, boost=1", "which=5, pos=0, boost=0", "which=6, pos=1, boost=1", "which=7, pos=0, boost=0", "which=7, pos=1, boost=1"],
                 bounds="%d classes (global, namespaced with enum, virtual+serializable, template with 2 instantiations, nested namespace, 2-argument template with enum, plain class between a serializable and a method-less class, typedef'd instantiation written outside its template's namespace) x position x serialization" % NCLS),
     ]
